@@ -1,22 +1,28 @@
 //go:build verif && linux
 
-// Verification hook (build tag `verif` only): the same named-pipe API as name_pipe_darwin.go, so that pkg/server
-// can be compiled and linked into the correspondence harness on Linux. Not compiled without the tag.
+// Verification hook (add-only, compiled only with `-tags verif`): pkg/server has no named-pipe
+// implementation for Linux, so the package does not build there.  This file is the darwin
+// implementation (mkfifo + plain open/read/write) made available on Linux so that the prefork
+// master can be exercised by the verification harness.  The only difference from the darwin file:
+// the FIFO is created under os.TempDir() (which is /tmp unless $TMPDIR is set) so that several
+// masters can run side by side, each in a private directory.
 package server
 
 import (
-	"fmt"
 	"math/rand"
 	"os"
+	"path/filepath"
 	"strconv"
 	"syscall"
 	"time"
 )
 
-const gPipeNameFmt = "/tmp/zinc-server-pipe-%s"
-
 type pipe struct {
 	id string
+}
+
+func pipeFileName(id string) string {
+	return filepath.Join(os.TempDir(), "zinc-server-pipe-"+id)
 }
 
 func NewPipe(id string) *pipe {
@@ -31,7 +37,7 @@ func CreateNamedPipe() (*pipe, error) {
 	id := (rand.Int63() >> 32) | (time.Now().Unix() << 32)
 	idStr := strconv.FormatInt(id, 16)
 
-	if err := syscall.Mkfifo(fmt.Sprintf(gPipeNameFmt, idStr), 0666); err != nil {
+	if err := syscall.Mkfifo(pipeFileName(idStr), 0666); err != nil {
 		return nil, err
 	}
 
@@ -39,12 +45,10 @@ func CreateNamedPipe() (*pipe, error) {
 }
 
 func OpenNamedPipeReader(p *pipe) (*os.File, error) {
-	pipeFile := fmt.Sprintf(gPipeNameFmt, p.id)
-	pipeReader, err := os.OpenFile(pipeFile, os.O_RDONLY, os.ModeNamedPipe)
+	pipeReader, err := os.OpenFile(pipeFileName(p.id), os.O_RDONLY, os.ModeNamedPipe)
 	if err != nil {
 		return nil, err
 	}
-	// os.Remove(pipeFile)
 	return pipeReader, nil
 }
 
@@ -54,8 +58,7 @@ func ReadDataFromNamedPipe(pipeReader *os.File, b []byte) error {
 }
 
 func OpenNamedPipeWriter(p *pipe) (*os.File, error) {
-	pipeFile := fmt.Sprintf(gPipeNameFmt, p.id)
-	pipeWriter, err := os.OpenFile(pipeFile, os.O_WRONLY, 0777)
+	pipeWriter, err := os.OpenFile(pipeFileName(p.id), os.O_WRONLY, 0777)
 	if err != nil {
 		return nil, err
 	}
